@@ -100,9 +100,6 @@ impl Rng {
         self.next_u64() as u8
     }
 
-    pub fn fork(&mut self) -> Rng {
-        Rng::new(self.next_u64())
-    }
 }
 
 /// FNV-1a, used for order-free digests and distinct-tuple identities.
